@@ -68,6 +68,8 @@ type Env struct {
 	Execs     int64 // simulated processes executed
 	PlainExec int64
 	TicksSum  int64
+	SimUsSum  int64 // simulated microseconds (ticks + clock jumps)
+	JumpUsSum int64
 	TicksMax  int64
 }
 
@@ -404,6 +406,8 @@ func (e *Env) execSim(w *worker, st *Step, budget int64) (*Result, error) {
 		}
 		e.mu.Lock()
 		e.TicksSum += j.Ticks
+		e.SimUsSum += j.SimTimeUs
+		e.JumpUsSum += j.JumpedUs
 		if j.Ticks > e.TicksMax {
 			e.TicksMax = j.Ticks
 		}
